@@ -7,8 +7,18 @@
                    defs    |-> << <<name, kind>>, ... >>,      \* definitions of the body
                    exports |-> << <<external, internal>>, ... >> ]   \* (export x) = <<x,x>>, (export (rename i e)) = <<e,i>>
 
-   A *binding* is <<library, internal name>> : the definition of that name in that library's body.
+   A *binding* is <<library, internal name>> : the definition of that name in that library's body.  It is
+   a LOCATION: it holds a current value, which the defining library may assign (while its body runs and
+   later, through procedures it exports); an importer never gets a copy.
    An import set denotes a finite map  visible name -> binding  (Names).  Identifiers are strings.
+
+   defs entries are <<name, kind, arg, code>>:
+      "var"  arg = what it holds: "list" (heap value) | "fix" | "char" | "bool" (immediates), code = unique number
+      "proc" "mac"   compute their tag through the private helper          "priv"  never exported
+      "tick"         counts its calls in a private variable
+      "bump"         assigns every variable of its library (version + 1) and returns the new version
+      "rd"           arg = an identifier in the library's scope that denotes a variable: returns its current value
+      "relay"        arg = an identifier in scope that denotes some library's bump: calls it (a third library mutates)
 
    import sets (tagged tuples, exactly the JSON arrays the harness renders to Scheme):
       <<"lib", l>>  <<"only", s, <<id..>>>>  <<"except", s, <<id..>>>>  <<"rename", s, <<<<from,to>>..>>>>
@@ -29,7 +39,8 @@ Libs == 1..Len(Graph)
 Rng(s) == {s[i] : i \in DOMAIN s}
 NoDup(s) == Cardinality(Rng(s)) = Len(s)
 None == <<>>
-Kinds == {"var", "proc", "mac", "tick", "priv"}     \* priv: a helper / state variable that is never exported
+Kinds == {"var", "proc", "mac", "tick", "priv", "bump", "rd", "relay"}
+VKinds == {"list", "fix", "char", "bool"}
 
 Lib(l) == <<"lib", l>>
 Only(s, ids) == <<"only", s, ids>>
@@ -100,6 +111,8 @@ LookupG(T, e, n) ==
 
 (* ---------------- libraries ------------------------------------------------------------------------ *)
 DefNames(l) == {d[1] : d \in Rng(Graph[l].defs)}
+Def(b) == CHOOSE d \in Rng(Graph[b[1]].defs) : d[1] = b[2]
+Kind(b) == Def(b)[2]
 \* union of several import sets (of one library / one program): a visible name may arrive twice only with one binding
 MergeOK(maps) == \A i, j \in DOMAIN maps : \A n \in (DOMAIN maps[i]) \cap (DOMAIN maps[j]) : maps[i][n] = maps[j][n]
 Merge(maps) == Force([n \in UNION {DOMAIN maps[i] : i \in DOMAIN maps} |->
@@ -116,15 +129,22 @@ LibWFG(T, l) ==
    /\ \A i \in DOMAIN Graph[l].imports : WFG(T, Graph[l].imports[i])
    /\ MergeOK(ImportMaps(T, l))
    /\ NoDup([i \in DOMAIN Graph[l].defs |-> Graph[l].defs[i][1]])
-   /\ \A d \in Rng(Graph[l].defs) : d[2] \in Kinds
+   /\ \A d \in Rng(Graph[l].defs) : Len(d) = 4 /\ d[2] \in Kinds
+   /\ \A d \in Rng(Graph[l].defs) : d[2] = "var" => d[3] \in VKinds /\ d[4] \in 1..249
+   /\ \A d \in Rng(Graph[l].defs) : d[2] \in {"rd", "relay"} =>
+          /\ d[3] \in DefNames(l) \cup DOMAIN ImportedG(T, l)
+          /\ LET b == IF d[3] \in DefNames(l) THEN <<l, d[3]>> ELSE ImportedG(T, l)[d[3]]
+             IN Kind(b) = (IF d[2] = "rd" THEN "var" ELSE "bump")
    /\ DefNames(l) \cap DOMAIN ImportedG(T, l) = {}          \* redefining an imported name is an error
    /\ NoDup([i \in DOMAIN Graph[l].exports |-> Graph[l].exports[i][1]])
    /\ \A p \in Rng(Graph[l].exports) : p[2] \in DefNames(l) \cup DOMAIN ImportedG(T, l)
-   /\ \A p \in Rng(Graph[l].exports) : <<p[2], "priv">> \notin Rng(Graph[l].defs)
+   /\ \A p \in Rng(Graph[l].exports) : \A d \in Rng(Graph[l].defs) : d[1] = p[2] => d[2] # "priv"
 
 \* export maps of all libraries, built bottom-up (library l may import only from libraries < l)
 ExpTab == FoldLeft(LAMBDA T, l : Append(T, ExportsG(T, l)), <<>>, [l \in Libs |-> l])
-GraphWF == \A l \in Libs : LibWFG(SubSeq(ExpTab, 1, l - 1), l)
+VarDefs == UNION {{<<l, d>> : d \in {x \in Rng(Graph[l].defs) : x[2] = "var"}} : l \in Libs}
+GraphWF == /\ \A l \in Libs : LibWFG(SubSeq(ExpTab, 1, l - 1), l)
+           /\ \A x, y \in VarDefs : x[2][4] = y[2][4] => x = y          \* the codes identify the variables
 
 \* (TLC re-evaluates ExpTab at every use: state machines keep it in a variable and use the ...G operators)
 Names(e) == NamesG(ExpTab, e)
@@ -132,7 +152,16 @@ WF(e) == WFG(ExpTab, e)
 Lookup(e, n) == LookupG(ExpTab, e, n)
 Exports(l) == ExpTab[l]
 Bindings == UNION {{<<l, n>> : n \in DefNames(l)} : l \in Libs}
-Kind(b) == (CHOOSE d \in Rng(Graph[b[1]].defs) : d[1] = b[2])[2]
+\* the binding an identifier denotes inside the body of library l
+BindInG(T, l, n) == IF n \in DefNames(l) THEN <<l, n>> ELSE ImportedG(SubSeq(T, 1, l - 1), l)[n]
+\* the value location b holds after its library's variables have been assigned v times by the library itself
+\* (one shape per class of value so that TLC can compare them: heap values carry library, name and version)
+Val(b, v) == LET d == Def(b) IN
+             CASE d[3] = "list" -> <<b[1], b[2], v>>
+               [] d[3] = "fix"  -> <<"fix", d[4] * 100000 + v, 0, 0>>
+               [] d[3] = "char" -> <<"char", 65536 + d[4] * 4096 + (v % 4096), 0, 0>>
+               [] d[3] = "bool" -> <<"bool", v % 2, 0, 0>>
+Immediate(b) == Def(b)[3] \in {"fix", "char", "bool"}
 
 \* a program / environment imports several sets at once
 SetsWFG(T, sets) == /\ \A i \in DOMAIN sets : WFG(T, sets[i])
